@@ -349,7 +349,7 @@ def _typed(v, how):
     return v
 
 
-def build_real(g, budget, cfgs, main_seed, main_kind="rec", start=None, collators=False, pre_batch_size=None, reuse=None, types=None):
+def build_real(g, budget, cfgs, main_seed, main_kind="rec", start=None, collators=False, pre_batch_size=None, reuse=None, types=None, reconfig=None):
     """constructs the real InterleavedSampler from a spec; returns (sampler, main_recorder, side_samplers, events, pos)
     reuse = (sides, configs) of another build: the SAME side sampler and config objects are handed to this scheduler as well
     types = None | dict(drop_last=how, intervals=how): argument types (see _typed)"""
@@ -383,7 +383,31 @@ def build_real(g, budget, cfgs, main_seed, main_kind="rec", start=None, collator
                 break
         for s_ in sides:
             s_.passes = 0
-    sampler = InterleavedSampler(**kw)
+    if reconfig:
+        # the scheduler is constructed with decoy values and brought to the configuration under test through its public attributes before
+        # it is iterated (what a config system / a hyper-parameter sweep does with an existing object); it reports the new values, so it
+        # must run by them
+        final = dict(kw)
+        if "batch" in reconfig:
+            kw["batch_size"] = 1 if g["B"] != 1 else min(2, len(main))
+            kw["drop_last"] = False
+            kw.pop("drop_last_batch_size", None)
+        if "budget" in reconfig:
+            for b_ in ("epochs", "updates", "samples"):
+                kw.pop(b_, None)
+            kw[{"zero": "epochs", "other": "updates"}.get(reconfig.get("budget"), "epochs")] = 0 if reconfig.get("budget") == "zero" else 3
+        if "main" in reconfig:
+            kw["main_sampler"] = RecMain(g["M"], g["N"], main_seed + 7, lambda: 0)
+        sampler = InterleavedSampler(**kw)
+        if "batch" in reconfig:
+            sampler.batch_size, sampler.drop_last = final["batch_size"], final["drop_last"]
+            sampler.drop_last_batch_size = final.get("drop_last_batch_size")
+        if "budget" in reconfig:
+            sampler.epochs, sampler.updates, sampler.samples = final.get("epochs"), final.get("updates"), final.get("samples")
+        if "main" in reconfig:
+            sampler.main_sampler = main
+    else:
+        sampler = InterleavedSampler(**kw)
     main._kdv_configs = configs  # harness bookkeeping on the harness's own recorder object (reuse=)
     return sampler, main, sides, events
 
